@@ -2694,7 +2694,13 @@ class RootTransaction(Transaction):
                 # COMMIT), so the rollback has to actually be emitted
                 self._connection_rollback_impl()
 
-            if self.connection._nested_transaction:
+            if (
+                self.connection._transaction is self
+                and self.connection._nested_transaction
+            ):
+                # only cancel savepoints that belong to this transaction;
+                # a stale handle of an earlier transaction must not touch
+                # the savepoints of the one now in progress
                 self.connection._nested_transaction._cancel()
         finally:
             if self.is_active or try_deactivate:
